@@ -20,6 +20,7 @@ LEVEL = 'model_checking'
 DATASETS = {
     'zeros5': [b'a', b'a\x00', b'ab', b'b', b'b\x00\x00'],
     'plain3': [b'k1', b'k2', b'k3'],
+    'many60': [b'm%03d' % i + (b'\x00' if i % 7 == 0 else b'') for i in range(60)],
 }
 MAX_ROUND = 5
 
@@ -281,8 +282,8 @@ def plan(ctx):
   for name, ids in DATASETS.items():
     for impl in ('mem', 'sql', 'sub_dup'):
       for seed in (0, 1, 7):
-        for k in range(1, len(ids) + 1):
-          d = depth
+        for k in (range(1, len(ids) + 1) if len(ids) < 10 else (1, 7, len(ids) - 1, len(ids))):
+          d = depth if len(ids) < 10 else 2
           if th and not (seed == 0 or k in (1, len(ids))):
             d = 4
           if not th and impl in ('sql', 'sub_dup') and seed == 1:
@@ -291,8 +292,9 @@ def plan(ctx):
   ctx.pmap('histories', hc, chunk=1)
   sc = [{'dataset': name, 'impl': impl, 'k': k, 'buffers': [1, 2, len(ids) + 1], 'stream_seeds': [0, 3],
          'max_start': 4}
-        for name, ids in DATASETS.items() for impl in ('mem', 'sql') for k in range(1, len(ids) + 1)]
+        for name, ids in DATASETS.items() for impl in ('mem', 'sql')
+        for k in (range(1, len(ids) + 1) if len(ids) < 10 else (7, len(ids)))]
   ctx.pmap('streaming', sc, chunk=2)
   ctx.pmap('other_process', [{'dataset': name, 'impls': ['mem', 'sql'], 'ks': [1, len(ids) - 1, len(ids)], 'seed': sd + ctx.seed,
-                              'hashseeds': [hs]} for name, ids in DATASETS.items() for sd in (0, 7)
+                              'hashseeds': [hs]} for name, ids in DATASETS.items() if len(ids) < 10 for sd in (0, 7)
                              for hs in ((1, 2, 3, 12345) if th else (1, 2))], chunk=1)
